@@ -250,7 +250,7 @@ func TestC15LineTables(t *testing.T) {
 func TestC15LineTablesRandom(t *testing.T) {
 	run := h.Begin("C15", "line-tables-random", "rapid: random texts up to 2 KiB (64 KiB thorough) mixing ASCII, multi-byte, invalid bytes and all six line-break forms; same oracle on every offset (sampled offsets for texts over 512 bytes); non-trivial as for line tables; distinct by text")
 	defer run.End(t)
-	h.RapidSetup(h.N(1500, 50000), "c15lines")
+	h.RapidSetup(h.N(1500, 200000), "c15lines")
 	maxLen := h.N(2048, 65536)
 	rapid.Check(t, func(rt *rapid.T) {
 		n := rapid.IntRange(0, 64).Draw(rt, "n")
@@ -310,7 +310,7 @@ func checkLineTableSampled(rt *rapid.T, text []byte) string {
 func TestC15Ranges(t *testing.T) {
 	run := h.Begin("C15", "ranges", "rapid: grammar-generated programs with layouts that use all six line-break forms and multi-byte whitespace; oracle: 0<=Pos<=End<=len, children inside the parent, siblings in source order without overlap, text[Pos:End] of every node in expression position parses on its own to a tree with the same position-free dump, and every node / operator token / member name covers exactly the token span the reference parser assigns to it (start inside the leading trivia of its first token, end between its last token and the next token's text); non-trivial: >=5 nodes over >=2 lines; distinct by text")
 	defer run.End(t)
-	h.RapidSetup(h.N(3000, 200000), "c15ranges")
+	h.RapidSetup(h.N(3000, 800000), "c15ranges")
 	rapid.Check(t, func(rt *rapid.T) {
 		ast := genExpr(rt, &syntaxCfg, rapid.IntRange(1, 6).Draw(rt, "depth"), ref.LvComma)
 		toks := ast.Flatten()
@@ -374,7 +374,7 @@ var c15Breaks = []string{"\n", "\r", "\r\n", "\u2028", "\u2029", "\u0085"}
 func TestC15Diagnostics(t *testing.T) {
 	run := h.Begin("C15", "diagnostics", "rapid: (i) generated programs with one or two token-level mutations, (ii) token soups over the full alphabet, (iii) truncated valid programs (error at the very end), all laid out over several lines with random line-break forms including a trailing break; oracle: every diagnostic inside the text and the error string equal to 'pos(line, column) error(code) message' built from the first diagnostic with line/column from a direct count; counted only when a SourceCode with diagnostics is returned; non-trivial: first diagnostic not on line 0, or text with >=2 line-break forms / CRLF / trailing break; distinct by text")
 	defer run.End(t)
-	h.RapidSetup(h.N(6000, 400000), "c15diag")
+	h.RapidSetup(h.N(6000, 1500000), "c15diag")
 	rapid.Check(t, func(rt *rapid.T) {
 		var toks []string
 		switch rapid.IntRange(0, 2).Draw(rt, "src") {
